@@ -101,6 +101,12 @@ def varsD (d : Dev) : GP → List Str → List Str
 
 def seedVars (seed : Mu) : List Str := seed.filterMap (fun kt => match kt.1 with | .var x => some x | .bn _ => none)
 
+/-- the decision of FILTER [NOT] EXISTS from the evaluation of its pattern; a refusal inside is
+swallowed (= no solution) under `existsSwallow` -/
+def existsKeepD (d : Dev) (neg : Bool) : Except Err (List Mu) → Except Err Bool
+  | .ok r => .ok ((!r.isEmpty) != neg)
+  | .error e => if d.existsSwallow then .ok neg else .error e
+
 /-- `SparqlSpec.eval` with the deviations of `d`; `seed` is non-empty only under `graphPrebind` -/
 def evalD (d : Dev) (D : List Quad) : GP → Graph → Mu → Except Err (List Mu)
   | .bgp ps, G, seed => .ok ((instancesFrom seed G ps).map dropBn)
@@ -113,10 +119,7 @@ def evalD (d : Dev) (D : List Quad) : GP → Graph → Mu → Except Err (List M
     pure (Ω.filter (holdsD d e))
   | .filterExists neg pat p, G, seed => do
     let Ω ← evalD d D p G seed
-    let keep ← Ω.mapM (fun μ =>
-      match evalD d D pat G μ with
-      | .ok r => Except.ok ((!r.isEmpty) != neg)
-      | .error e => if d.existsSwallow then Except.ok neg else Except.error e)
+    let keep ← Ω.mapM (fun μ => existsKeepD d neg (evalD d D pat G μ))
     pure ((Ω.zip keep).filterMap (fun x => if x.2 then some x.1 else none))
   | .graph (.iri n) p, _, seed => evalD d D p (namedGraph D (.iri n)) seed
   | .graph (.var x) p, _, seed =>
@@ -149,27 +152,43 @@ def evalD (d : Dev) (D : List Quad) : GP → Graph → Mu → Except Err (List M
     pure (sliceList Ω start len)
   | _, _, _ => .error .unsupported
 
+/-- the fragment check when refusals inside EXISTS are swallowed: the EXISTS patterns are not looked at -/
+def inFragmentSw : GP → Bool
+  | .bgp _ => true
+  | .filter _ p => inFragmentSw p
+  | .filterExists _ _ p => inFragmentSw p
+  | .union l r => inFragmentSw l && inFragmentSw r
+  | .graph _ p => inFragmentSw p
+  | .extend p _ _ => inFragmentSw p
+  | .orderBy p => inFragmentSw p
+  | .project p _ => inFragmentSw p
+  | .distinct p => inFragmentSw p
+  | .slice p _ _ => inFragmentSw p
+  | _ => false
+
+def fragD (d : Dev) (p : GP) : Bool := if d.existsSwallow then inFragmentSw p else inFragment p
+
 def evalQueryD (d : Dev) (D : List Quad) : Query → Answer
   | .select none p =>
-    if inFragment p then
+    if fragD d p then
       match evalD d D p (defaultGraph D) [] with
       | .ok Ω => .rows (varsD d p []) Ω
       | .error e => .err e
     else .err .unsupported
   | .ask none p =>
-    if inFragment p then
+    if fragD d p then
       match evalD d D p (defaultGraph D) [] with
       | .ok Ω => .bool (!Ω.isEmpty)
       | .error e => .err e
     else .err .unsupported
   | .select (some ⟨froms, none⟩) p =>
-    if inFragment p then
+    if fragD d p then
       match evalD d (fromDataset D froms) p (defaultGraph (fromDataset D froms)) [] with
       | .ok Ω => .rows (varsD d p []) Ω
       | .error e => .err e
     else .err .unsupported
   | .ask (some ⟨froms, none⟩) p =>
-    if inFragment p then
+    if fragD d p then
       match evalD d (fromDataset D froms) p (defaultGraph (fromDataset D froms)) [] with
       | .ok Ω => .bool (!Ω.isEmpty)
       | .error e => .err e
